@@ -71,6 +71,45 @@ def build_all():
     return bins
 
 
+def run_driver(exe, sp, tp, nscenarios):
+    """The driver runs in a child process; when the code under test kills it (heap corruption,
+    abort) an `abort` event is appended and the run resumes after that scenario."""
+    import subprocess
+    if os.path.exists(tp):
+        os.remove(tp)
+    skip, aborts = 0, 0
+    while skip < nscenarios:
+        p = subprocess.run([exe, sp, tp, str(skip)], stdout=subprocess.PIPE, stderr=subprocess.STDOUT, timeout=3000)
+        if p.returncode == 0:
+            break
+        last = None
+        with open(tp) as f:
+            for line in f:
+                if line.startswith('{"ev":"running"'):
+                    last = json.loads(line)["index"]
+        aborts += 1
+        with open(tp, "a") as f:
+            f.write("\n" + json.dumps({"ev": "abort", "rc": p.returncode}) + "\n")
+        if last is None or aborts > 500:
+            raise ToolError("vec driver died before any scenario: rc=%s %s" % (p.returncode, p.stdout[-300:]))
+        skip = last + 1
+    # drop the bookkeeping lines (and partial lines of a killed run)
+    nev = 0
+    with open(tp) as f, open(tp + ".clean", "w") as o:
+        for line in f:
+            line = line.strip()
+            if not line or line.startswith('{"ev":"running"'):
+                continue
+            try:
+                json.loads(line)
+            except ValueError:
+                continue
+            o.write(line + "\n")
+            nev += 1
+    os.replace(tp + ".clean", tp)
+    return {"scenarios": nscenarios, "events": nev, "aborts": aborts}
+
+
 def validate(trace_files):
     def one(tf):
         r = run_tlc("VecTrace", "VecTrace.cfg", workers=1, env={"TRACE": tf}, dfs=True, timeout=3000, heap="3g")
@@ -144,8 +183,7 @@ def pipeline(tier, seed):
         per_build = {}
         for b, exe in bins.items():
             tp = os.path.join(out_dir, "trace_%s.ndjson" % b)
-            _, o = sh([exe, sp, tp], timeout=1800)
-            per_build[b] = json.loads(o.strip().splitlines()[-1])
+            per_build[b] = run_driver(exe, sp, tp, len(scs))
             nev += per_build[b]["events"]
             # shard at scenario boundaries
             K = 5
